@@ -1361,6 +1361,7 @@ Proof.
   pose proof (env_desc_ok E EO d md Hmd) as D. cbv zeta in H.
   fold (st_init d md data) in H.
   destruct (scan_loop (S (length data)) md (st_init d md data)) as [st|e] eqn:Es; cbn [bind] in H; [|discriminate H].
+  destruct (max_members <? Mem.zlen (st_members st)); [discriminate H|].
   destruct (alloc_slots (md_fields md) (st_bitmap st) (st_slots st)) as [slots|e] eqn:Ea; cbn [bind] in H; [|discriminate H].
   pose proof (init_scan_inv E d md data HB) as I0.
   destruct (scan_loop_inv' E md D parse_tag_range_bytes count_packed_elements_le_len (Mem.zlen data) _ _ st ltac:(lia) Es I0)
@@ -1409,7 +1410,7 @@ Corollary accepted_input_is_stable : forall (E : env) d data m,
   env_ok E = true -> bytes data -> Mem.zlen data < 268435456 -> (d < length E)%nat ->
   unpack_top E d data = Ok m -> unk_small E m = true ->
   exists b, pack_msg E m = Ok b /\
-            (Z.of_nat (length b) <= 2147483647 ->
+            (Z.of_nat (length b) <= max_input ->
              unpack_top E d b = Ok (wnorm_msg E m) /\ pack_msg E (wnorm_msg E m) = Ok b).
 Proof.
   intros E d data m EO HB HN Hd H Hu.
